@@ -45,7 +45,7 @@ type idx struct {
 }
 
 type op struct {
-	K   string // R G S L M N W D F O P I U V
+	K   string // R G S L K M N W D F O P I U V
 	I   idx
 	T   string  // text (R S L), separator (F O P), mode (I U), kind (M)
 	V   F64     // W: numeric view of the value
@@ -81,6 +81,8 @@ func (o op) wire() string {
 		return "S " + o.I.wire() + " " + hx.HexS(o.T)
 	case "L":
 		return "L " + o.I.wire() + " " + hx.HexS(o.T)
+	case "K":
+		return "K " + hx.HexS(o.T)
 	case "M":
 		return "M " + o.I.wire() + " " + o.T
 	case "N", "V":
@@ -197,6 +199,9 @@ func render(s script) *rendered {
 			sb.WriteString("  " + r.idx(o.I) + " = " + r.str(o.T) + "\n")
 		case "L":
 			sb.WriteString("  getline " + r.idx(o.I) + "\n")
+			r.stdin += o.T + recSep
+		case "K":
+			sb.WriteString("  getline xv\n")
 			r.stdin += o.T + recSep
 		case "M":
 			f := r.idx(o.I)
@@ -389,7 +394,7 @@ func insertReadAt(s script, impl []string, pos int, rd op) *hx.Failure {
 	// the splitter of the input is fixed by the first getline: do not read before it
 	first := -1
 	for i, o := range s.Ops {
-		if o.K == "R" || o.K == "L" {
+		if o.K == "R" || o.K == "L" || o.K == "K" {
 			first = i
 			break
 		}
@@ -425,6 +430,47 @@ func insertReadAt(s script, impl []string, pos int, rd op) *hx.Failure {
 		}
 	}
 	return nil
+}
+
+// csvGetlineProbes: in CSV/TSV input mode the fields of a record are produced by the record
+// reader itself; `getline var` reads the next record and must leave the current record's
+// $0, fields and NF as they were -- whether or not a field had been looked at before.
+func csvGetlineProbes(rep *hx.Report) {
+	const viewFn = `function view(   k, o) { o = NF ":" $0; for (k = 1; k <= NF; k++) o = o "|" $k; return o }
+`
+	inputs := []struct{ mode, in string }{
+		{"csv", "a,b c,d\nx,y\nlast\n"},
+		{"csv", "\"q,1\",2\nz\n"},
+		{"csv", "one\n\"two\nlines\",3,4\n"},
+		{"csv", ",,\nx\n"},
+		{"tsv", "a\tb c\nd\n"},
+		{"csv", "only\n"},
+	}
+	for _, in := range inputs {
+		run := func(body string) string {
+			cfg := &interp.Config{Environ: []string{}, Stdin: strings.NewReader(in.in), Vars: []string{"INPUTMODE", in.mode}, NoExec: true, NoFileWrites: true, NoFileReads: true}
+			rr := hx.RunAwk(viewFn+body, cfg, &parser.ParserConfig{})
+			if rr.Panic != nil {
+				return fmt.Sprintf("panic: %v", rr.Panic)
+			}
+			if rr.Err != nil {
+				return "error: " + rr.Err.Error()
+			}
+			return string(rr.Out)
+		}
+		want := run(`NR == 1 { print view(); exit }`)
+		for _, body := range []string{
+			`NR == 1 { getline x; print view(); exit }`,
+			`NR == 1 { y = $1; getline x; print view(); exit }`,
+			`NR == 1 { getline x; getline z; print view(); exit }`,
+		} {
+			rep.SearchEvals++
+			if got := run(body); got != want {
+				rep.Fail(hx.Failure{Class: "getline-var-csv-input", Oracle: "getline var leaves the current record unchanged",
+					Detail: map[string]any{"program": viewFn + body, "input_mode": in.mode, "stdin_hex": hx.HexS(in.in), "want": want, "got": got}})
+			}
+		}
+	}
 }
 
 func replay(o hx.Opts) {
@@ -488,7 +534,7 @@ func main() {
 		return
 	}
 	rep := hx.NewReport("C06", o.Seed, o.Tier)
-	rep.Rule = "scripts of record operations: every script of length <= 2 (quick) / <= 3 (thorough) over a 14-op alphabet, then random scripts of 1..12 ops (after a 3-op preamble that fixes the input splitter) over: record arrival, $0 assignment, field reads/writes with indexes from {0,+-1,+-2,NF+d,-NF+d,0.5,1e6,1e6+1,2^31,2^63,-2^63,1e30,NaN}, getline $i, sub/gsub/append/++/+= on a field, NF reads, NF assignments (integers, fractions, strings, negative, 1e6, 1e6+1, 2^63), NF++/NF+=d, FS from {space, single bytes, multi-byte char, empty, fixed and random regex ASTs, non-compiling}, OFS, RS (newline/empty), INPUTMODE/OUTPUTMODE; texts with blank runs, tabs, NBSP, VT, CR, newlines, invalid UTF-8, empty. 60% of random scripts avoid the input classes of the known findings (non-integral NF values, exotic white space, NaN index) so that everything else is checked to the end. distinct = distinct model request line; non-trivial = at least one mutating operation"
+	rep.Rule = "scripts of record operations: every script of length <= 2 (quick) / <= 3 (thorough) over a 14-op alphabet, then random scripts of 1..12 ops (after a 3-op preamble that fixes the input splitter) over: record arrival, getline var, $0 assignment, field reads/writes with indexes from {0,+-1,+-2,NF+d,-NF+d,0.5,1e6,1e6+1,2^31,2^63,-2^63,1e30,NaN}, getline $i, sub/gsub/append/++/+= on a field, NF reads, NF assignments (integers, fractions, strings, negative, 1e6, 1e6+1, 2^63), NF++/NF+=d, FS from {space, single bytes, multi-byte char, empty, fixed and random regex ASTs, non-compiling}, OFS, RS (newline/empty), INPUTMODE/OUTPUTMODE; texts with blank runs, tabs, NBSP, VT, CR, newlines, invalid UTF-8, empty. 60% of random scripts avoid the input class of the known finding (non-integral NF values) and the NaN index so that everything else is checked to the end. distinct = distinct model request line; non-trivial = at least one mutating operation"
 	r := hx.NewRand(o.Seed)
 	scripts := genScripts(o, r)
 	nFixed := len(fixedScripts())
@@ -543,5 +589,6 @@ func main() {
 			}
 		}
 	}
+	csvGetlineProbes(rep)
 	rep.Write(o.Out)
 }
